@@ -31,6 +31,9 @@ type (
 		barrier        syncx.SingleFlight
 		unstableExpiry mathx.Unstable
 		stats          *cacheStat
+		// 每次写入的序号：定时器携带写入时的序号，到期回调据此判断自己是否已经过时
+		gens map[string]uint64
+		gen  uint64
 	}
 
 	// CacheOption 定义自定义 Cache 选项的函数。
@@ -41,6 +44,7 @@ type (
 func NewCache(expire time.Duration, opts ...CacheOption) (*Cache, error) {
 	cache := &Cache{
 		data:           make(map[string]any),
+		gens:           make(map[string]uint64),
 		expire:         expire,
 		lruCache:       emptyLruCache,
 		barrier:        syncx.NewSingleFlight(),
@@ -62,7 +66,8 @@ func NewCache(expire time.Duration, opts ...CacheOption) (*Cache, error) {
 			return
 		}
 
-		cache.Del(k)
+		gen, _ := val.(uint64)
+		cache.expireKey(k, gen)
 	})
 	if err != nil {
 		return nil, err
@@ -76,9 +81,23 @@ func NewCache(expire time.Duration, opts ...CacheOption) (*Cache, error) {
 func (c *Cache) Del(key string) {
 	c.lock.Lock()
 	delete(c.data, key)
+	delete(c.gens, key)
 	c.lruCache.remove(key)
 	c.lock.Unlock()
 	c.timingWheel.RemoveTimer(key)
+}
+
+// expireKey 由时间轮在定时器触发后异步调用。回调运行之前该键可能刚被重新写入（与到期同一时刻的 Set），
+// 这时回调携带的序号已经过时，条目不能删除；触发过的定时器已被时间轮摘除，无需再移除。
+func (c *Cache) expireKey(key string, gen uint64) {
+	c.lock.Lock()
+	defer c.lock.Unlock()
+
+	if cur, ok := c.gens[key]; ok && cur == gen {
+		delete(c.data, key)
+		delete(c.gens, key)
+		c.lruCache.remove(key)
+	}
 }
 
 // Get 获取给定键的缓存。
@@ -100,18 +119,18 @@ func (c *Cache) Set(key string, value any) {
 
 // SetWithExpire 设置给定存活时长的键值对至缓存。
 func (c *Cache) SetWithExpire(key string, value any, expire time.Duration) {
-	c.lock.Lock()
-	_, ok := c.data[key]
-	c.data[key] = value
-	c.lruCache.add(key)
-	c.lock.Unlock()
-
 	expiry := c.unstableExpiry.AroundDuration(expire)
-	if ok {
-		c.timingWheel.MoveTimer(key, expiry)
-	} else {
-		c.timingWheel.SetTimer(key, value, expiry)
-	}
+
+	c.lock.Lock()
+	defer c.lock.Unlock()
+
+	c.data[key] = value
+	c.gen++
+	c.gens[key] = c.gen
+	c.lruCache.add(key)
+	// SetTimer 对已有定时器等同于 MoveTimer（并更新其携带的序号）；若旧定时器恰好已触发、回调尚未运行，
+	// 这里会重新建立一个。在锁内调用，保证序号与定时器的更新顺序一致。
+	c.timingWheel.SetTimer(key, c.gen, expiry)
 }
 
 // Take 返回给定键的条目。
@@ -172,6 +191,7 @@ func (c *Cache) doGet(key string) (any, bool) {
 
 func (c *Cache) onEvict(key string) {
 	delete(c.data, key)
+	delete(c.gens, key)
 	c.timingWheel.RemoveTimer(key)
 }
 
